@@ -9,6 +9,9 @@ from common import *
 import ops
 from props import c01, c02
 import revchecks
+from props import c04
+from programs import trace
+import programs
 
 RULE = ('cases = (operation, D, P>=2, shapes, coefficients with a different base point per direction) from ops.py; '
         'each direction re-evaluated alone; non-trivial = P>=2 and base points of two directions differ; distinct by hash')
@@ -48,7 +51,43 @@ def nontrivial(case):
     return False
 
 
+def jacobian_direction_fails(case):
+    """cg.jacobian(UTPM with P directions)[:, p] == cg.jacobian(UTPM with direction p alone)[:, 0]: every direction
+    has its own base point and higher coefficients, M >= 1 outputs"""
+    prog = case['prog']
+    c = np.array(case['jcurve'])
+    try:
+        with np.errstate(all='ignore'):
+            cg, fx, fy = trace(prog, [np.array(case['rec'])])
+            J = cg.jacobian(UTPM(c.copy()))
+    except Exception:
+        return None
+    if not isinstance(J, UTPM) or not np.all(np.isfinite(J.data)):
+        return None
+    for p in range(c.shape[1]):
+        try:
+            with np.errstate(all='ignore'):
+                Jp = cg.jacobian(UTPM(c[:, p:p + 1].copy()))
+        except Exception as ex:
+            return 'jacobian-direction-exception: direction %d alone raised %s' % (p, type(ex).__name__)
+        if Jp.data.shape[2:] != J.data.shape[2:] or not close(J.data[:, p], Jp.data[:, 0], 1e-8):
+            return ('jacobian-direction: direction %d of cg.jacobian(UTPM) differs from the result for that direction alone '
+                    '(max diff %s)' % (p, maxdiff(J.data[:, p], Jp.data[:, 0]) if Jp.data.shape[2:] == J.data.shape[2:] else 'shape'))
+    return None
+
+
+def make_jacobian_case(rng, tier):
+    base = c04.make_case(rng, tier)
+    N = base['N']
+    D, P = rng.randint(1, 3), rng.randint(2, 4)
+    c = rand_coeffs(rng, (D, P, N), -1, 1)
+    c[0] = rand_coeffs(rng, (P, N), -programs.BOX, programs.BOX)
+    return {'prog': base['prog'], 'N': N, 'rec': rand_coeffs(rng, (N,), -programs.BOX, programs.BOX), 'jcurve': c, 'jacdir': True}
+
+
 def replay_case(ctx, case):
+    if case.get('jacdir'):
+        return jacobian_direction_fails(case)
     if 'prog' in case:
         return revchecks.direction_adjoint_fails(case)
     if case.get('rev'):
@@ -104,6 +143,18 @@ def run(ctx):
             f = revchecks.op_direction_adjoint_fails(case)
             if f:
                 ctx.report(case, 'failure', f)
+    # graph drivers with a P-direction argument: jacobian(UTPM) direction by direction
+    for i in range(60 if ctx.tier == 'quick' else 600):
+        case = make_jacobian_case(ctx.rng, ctx.tier)
+        ctx.evaluations += 1
+        ctx.count('jacobian-utpm-direction')
+        h = canon_hash(to_jsonable(case))
+        if h not in ctx.hashes:
+            ctx.hashes.add(h)
+            ctx.nontrivial += 1
+        f = jacobian_direction_fails(case)
+        if f:
+            ctx.report(case, 'failure', f)
     # tie of the modelled kernels: model on P directions and on each direction alone
     m = 80 if ctx.tier == 'quick' else 800
     for i in range(m):
